@@ -94,8 +94,8 @@ def run(ck):
     ck.assumptions = ['store.dump / lock operations are atomic under kill at the granularity of one call (C05 covers a kill inside file_store.dump, C04 inside lock creation)']
     b = X.Batch(ck)
     b.run(X.sanity_scenario(), ORACLES)
-    systematic(ck, b, ck.n(14, 150), ck.n(2, 1))
-    random_kills(ck, b, ck.n(70, 2000))
+    systematic(ck, b, ck.n(14, 110), ck.n(2, 1))
+    random_kills(ck, b, ck.n(70, 1500))
     if ck.tier == 'thorough':
         from . import execproc
         execproc.kill_runs(ck, ck.n(0, 40))
